@@ -439,12 +439,14 @@ Proof.
   intros E. destruct d as [ss|]; cbn; auto. intros [H|(s & A & I)]; auto. right. exists s. split; auto.
 Qed.
 
-Lemma igamma_hp b c c' g : (forall x, c_hp c' g x = c_hp c g x) -> igamma b c g -> igamma b c' g.
+Lemma igamma_eq b c c' g g' : (forall x, c_hp c' g' x = c_hp c g x) -> igamma b c g -> igamma b c' g'.
 Proof.
   intros E. destruct b; cbn; auto.
   - intros H x. rewrite E. auto.
   - intros (x & z & H). exists x, z. rewrite E. auto.
 Qed.
+Lemma igamma_hp b c c' g : (forall x, c_hp c' g x = c_hp c g x) -> igamma b c g -> igamma b c' g.
+Proof. apply igamma_eq. Qed.
 
 (* an update of a non-region variable (and possibly more references created) *)
 Lemma rel_scalar_update a c x z tl E rg' al' tg' made' asite' :
@@ -1040,5 +1042,467 @@ Proof.
       rewrite hupd_other_addr in Hx by auto. rewrite hupd_other_addr by auto. apply (r_tuw _ _ R); auto.
     + rewrite hupd_other_rgn in Hx by auto. rewrite hupd_other_rgn by auto. apply (r_tuw _ _ R); auto.
 Qed.
-End WithKinds.
 
+(* ---- region_copy ---- *)
+Lemma t_rcopy_sound a c c' r l g :
+  rel a c -> is_rgn l = true -> is_rgn g = true -> l <> g -> is_refrgn l = is_refrgn g ->
+  cstep (ORcopy r l g) c c' -> relv (t_rcopy P l g a) c'.
+Proof.
+  intros R Kl Kg Nlg Krr ->. unfold t_rcopy. rcore R.
+  set (info := r_rgn a g).
+  set (s1 := set_rgn a l info). set (s2 := set_alloc P s1 l (r_alloc s1 g)).
+  set (s3 := set_tags P s2 l (r_tags s2 g)).
+  assert (EB : r_base s3 = r_base a) by (unfold s3, s2; rewrite set_tags_base, set_alloc_base; reflexivity).
+  assert (ER : r_rgn s3 = fupd (r_rgn a) l info) by (unfold s3, s2; rewrite set_tags_rgn, set_alloc_rgn; reflexivity).
+  assert (EAL : forall w, r_alloc s3 w = if p_alloc P then (if N.eqb w l then r_alloc a g else r_alloc a w) else r_alloc a w).
+  { intros w. unfold s3, s2. rewrite set_tags_alloc, set_alloc_get. reflexivity. }
+  assert (ETG : forall w, r_tags s3 w = if p_tags P then (if N.eqb w l then r_tags a g else r_tags a w) else r_tags a w).
+  { intros w. unfold s3. rewrite set_tags_get. unfold s2. rewrite !set_alloc_tags. reflexivity. }
+  rewrite EB. set (b := EMap (r_base a)).
+  set (c' := mkCS (upd (c_st c) l (c_st c g)) (fupd (c_hp c) l (c_hp c g)) (fupd (c_made c) l (c_made c g))
+                  (c_asite c) (c_vtg c) (fupd (c_htg c) l (c_htg c g))).
+  assert (VW : forall s, view c' s -> view c (upd s l (c_st c l)) /\ view c (upd (upd s l (c_st c l)) g (s l))).
+  { intros s [V1 V2].
+    assert (V0 : view c (upd s l (c_st c l))).
+    { split.
+      - intros k Kk. assert (N : k <> l) by (intros ->; congruence).
+        rewrite upd_other by auto. rewrite (V1 k Kk). cbn. apply upd_other; auto.
+      - intros q Kq. destruct (N.eq_dec q l) as [->|N]; [left; apply upd_same|].
+        rewrite upd_other by auto. destruct (V2 q Kq) as [E|(x & E)].
+        + left. rewrite E. cbn. apply upd_other; auto.
+        + right. exists x. cbn in E. rewrite fupd_other in E by auto. auto. }
+    split; auto. destruct V0 as [U1 U2]. split.
+    - intros k Kk. rewrite upd_other by (intros ->; congruence). auto.
+    - intros q Kq. destruct (N.eq_dec q g) as [->|N]; [|rewrite upd_other by auto; auto].
+      rewrite upd_same. destruct (V2 l Kl) as [E|(x & E)].
+      + left. rewrite E. cbn. rewrite upd_same. reflexivity.
+      + right. exists x. cbn in E. rewrite fupd_same in E. auto. }
+  assert (GB : forall s, view c' s ->
+            genv (if singleton_count (fst info) then d_assign l (le_var g) b else d_expand g l (e_forget b l)) s).
+  { intros s V. destruct (VW s V) as [V0 V1].
+    pose proof (rc_base _ _ RC _ V0) as G0. pose proof (rc_base _ _ RC _ V1) as G1.
+    assert (EXT : forall k, upd (upd s l (c_st c l)) l (s l) k = s k).
+    { intros k. destruct (N.eq_dec k l) as [->|N]; [apply upd_same | rewrite !upd_other by auto; auto]. }
+    destruct (singleton_count (fst info)).
+    - rewrite d_assign_var. eapply genv_ext; [exact EXT|]. apply e_set_sound; auto.
+      pose proof (e_at_sound b _ g G1) as X. rewrite upd_same in X. exact X.
+    - eapply genv_ext; [exact EXT|]. apply d_expand_sound.
+      + apply e_forget_keep; auto.
+      + exists (upd (upd s l (c_st c l)) g (s l)). split; [apply e_forget_keep; auto|]. split.
+        * intros k N. apply upd_other; auto.
+        * rewrite upd_same. auto. }
+  match goal with |- relv (if ?x then with_base s3 ?e1 else with_base s3 ?e2) _ =>
+    replace (if x then with_base s3 e1 else with_base s3 e2) with (with_base s3 (if x then e1 else e2)) by (destruct x; auto)
+  end.
+  destruct (if singleton_count (fst info) then _ else _) as [|m] eqn:ES; [elim (GB _ (view_id c'))|].
+  cbn [with_base relv]. unfold c' in *. clear c'.
+  constructor.
+  - constructor; cbn [r_base r_rgn].
+    + exact GB.
+    + intros q. unfold count. cbn [r_rgn]. rewrite ER. unfold creators. cbn [c_made].
+      destruct (N.eq_dec q l) as [->|N]; [rewrite !fupd_same | rewrite !fupd_other by auto]; apply (rc_count _ _ RC).
+    + intros q. unfold rinit. cbn [r_rgn]. rewrite ER.
+      destruct (N.eq_dec q l) as [->|N]; [rewrite fupd_same | rewrite fupd_other by auto].
+      * apply (igamma_eq _ c _ g); [|apply (rc_init _ _ RC)]. intros x. cbn. rewrite fupd_same. auto.
+      * apply (igamma_hp _ c); [|apply (rc_init _ _ RC)]. intros x. cbn. rewrite fupd_other by auto. auto.
+    + intros q x w Hw. cbn [c_hp] in Hw. unfold addrs. cbn [c_made].
+      destruct (N.eq_dec q l) as [->|N].
+      * rewrite fupd_same in Hw. rewrite fupd_same. eapply (rc_wf _ _ RC); eauto.
+      * rewrite fupd_other in Hw by auto. rewrite fupd_other by auto. eapply (rc_wf _ _ RC); eauto.
+  - intros w Kw. assert (N : w <> l) by (intros ->; apply refv_nonrgn in Kw; congruence).
+    cbn [r_alloc c_st]. rewrite upd_other by auto. rewrite EAL.
+    replace (if p_alloc P then if N.eqb w l then r_alloc a g else r_alloc a w else r_alloc a w) with (r_alloc a w).
+    + change (sgamma c (r_alloc a w) (c_st c w)). apply (r_svar _ _ R); auto.
+    + destruct (p_alloc P); auto. destruct (N.eqb_spec w l); congruence.
+  - intros q Kq x w Hw. cbn [r_alloc]. cbn [c_hp] in Hw. rewrite EAL.
+    match goal with |- sgamma ?cc ?d ?y => change (sgamma c d y) end.
+    destruct (N.eq_dec q l) as [->|N].
+    + rewrite fupd_same in Hw. rewrite N.eqb_refl.
+      destruct (p_alloc P) eqn:PA; [|rewrite (r_soff _ _ R PA); exact I].
+      eapply (r_srgn _ _ R g); eauto; congruence.
+    + rewrite fupd_other in Hw by auto.
+      replace (if p_alloc P then if N.eqb q l then r_alloc a g else r_alloc a q else r_alloc a q) with (r_alloc a q).
+      * eapply (r_srgn _ _ R); eauto.
+      * destruct (p_alloc P); auto. destruct (N.eqb_spec q l); congruence.
+  - intros Off w. cbn [r_alloc]. rewrite EAL, Off. apply (r_soff _ _ R); auto.
+  - cbn. apply (r_anull _ _ R).
+  - intros w Kw. assert (N : w <> l) by (intros ->; congruence).
+    cbn [r_tags c_vtg]. rewrite ETG.
+    replace (if p_tags P then if N.eqb w l then r_tags a g else r_tags a w else r_tags a w) with (r_tags a w).
+    + apply (r_tvar _ _ R); auto.
+    + destruct (p_tags P); auto. destruct (N.eqb_spec w l); congruence.
+  - intros q Kq x. cbn [r_tags c_htg]. rewrite ETG.
+    destruct (N.eq_dec q l) as [->|N].
+    + rewrite fupd_same, N.eqb_refl. destruct (p_tags P) eqn:PT; [|rewrite (r_toff _ _ R PT); exact I].
+      apply (r_trgn _ _ R); auto.
+    + rewrite fupd_other by auto.
+      replace (if p_tags P then if N.eqb q l then r_tags a g else r_tags a q else r_tags a q) with (r_tags a q).
+      * apply (r_trgn _ _ R); auto.
+      * destruct (p_tags P); auto. destruct (N.eqb_spec q l); congruence.
+  - intros Off w. cbn [r_tags]. rewrite ETG, Off. apply (r_toff _ _ R); auto.
+  - intros q x Hx. cbn [c_hp c_htg] in *. destruct (N.eq_dec q l) as [->|N].
+    + rewrite fupd_same in Hx. rewrite fupd_same. apply (r_tuw _ _ R); auto.
+    + rewrite fupd_other in Hx by auto. rewrite fupd_other by auto. apply (r_tuw _ _ R); auto.
+Qed.
+
+(* ---- region_init ---- *)
+Lemma t_init_sound a a' c c' r g :
+  rel a c -> is_rgn g = true -> t_init P g a = Some a' -> cstep (OInit r g) c c' -> rel a' c'.
+Proof.
+  intros R Kg T ->. unfold t_init in T. destruct (sr_leq (count a g) ROneOrMore); [discriminate|].
+  inversion T; subst a'. clear T. rcore R.
+  set (s1 := set_rgn a g (RZero, BFalse)). set (s2 := set_alloc P s1 g ds_empty).
+  assert (EAL : forall w, r_alloc (set_tags P s2 g ds_empty) w = if p_alloc P then (if N.eqb w g then ds_empty else r_alloc a w) else r_alloc a w).
+  { intros w. unfold s2. rewrite set_tags_alloc, set_alloc_get. reflexivity. }
+  assert (ETG : forall w, r_tags (set_tags P s2 g ds_empty) w = if p_tags P then (if N.eqb w g then ds_empty else r_tags a w) else r_tags a w).
+  { intros w. rewrite set_tags_get. unfold s2. rewrite set_alloc_tags. reflexivity. }
+  assert (ER : r_rgn (set_tags P s2 g ds_empty) = fupd (r_rgn a) g (RZero, BFalse)).
+  { unfold s2. rewrite set_tags_rgn, set_alloc_rgn. reflexivity. }
+  assert (EB : r_base (set_tags P s2 g ds_empty) = r_base a).
+  { unfold s2. rewrite set_tags_base, set_alloc_base. reflexivity. }
+  constructor.
+  - constructor.
+    + intros s [V1 V2]. rewrite EB. apply (rc_base _ _ RC). split; auto.
+      intros q Kq. destruct (V2 q Kq) as [E|(x & E)]; auto. cbn in E.
+      destruct (N.eq_dec q g) as [->|N]; [rewrite fupd_same in E; discriminate|].
+      rewrite fupd_other in E by auto. eauto.
+    + intros q. unfold count, creators. rewrite ER. cbn [c_made].
+      destruct (N.eq_dec q g) as [->|N]; [rewrite !fupd_same; reflexivity|].
+      rewrite !fupd_other by auto. apply (rc_count _ _ RC).
+    + intros q. unfold rinit. rewrite ER.
+      destruct (N.eq_dec q g) as [->|N]; [rewrite fupd_same; intros x; cbn; rewrite fupd_same; auto|].
+      rewrite fupd_other by auto. apply (igamma_hp _ c); [|apply (rc_init _ _ RC)].
+      intros x. cbn. rewrite fupd_other by auto. auto.
+    + intros q x w Hw. cbn [c_hp] in Hw. unfold addrs. cbn [c_made].
+      destruct (N.eq_dec q g) as [->|N]; [rewrite fupd_same in Hw; discriminate|].
+      rewrite fupd_other in Hw by auto. rewrite fupd_other by auto. eapply (rc_wf _ _ RC); eauto.
+  - intros w Kw. assert (N : w <> g) by (intros ->; apply refv_nonrgn in Kw; congruence).
+    rewrite EAL. cbn [c_st].
+    replace (if p_alloc P then if N.eqb w g then ds_empty else r_alloc a w else r_alloc a w) with (r_alloc a w).
+    + apply (r_svar _ _ R); auto.
+    + destruct (p_alloc P); auto. destruct (N.eqb_spec w g); congruence.
+  - intros q Kq x w Hw. cbn [c_hp] in Hw. rewrite EAL.
+    destruct (N.eq_dec q g) as [->|N]; [rewrite fupd_same in Hw; discriminate|].
+    rewrite fupd_other in Hw by auto.
+    replace (if p_alloc P then if N.eqb q g then ds_empty else r_alloc a q else r_alloc a q) with (r_alloc a q).
+    + eapply (r_srgn _ _ R); eauto.
+    + destruct (p_alloc P); auto. destruct (N.eqb_spec q g); congruence.
+  - intros Off w. rewrite EAL, Off. apply (r_soff _ _ R); auto.
+  - apply (r_anull _ _ R).
+  - intros w Kw. assert (N : w <> g) by (intros ->; congruence). rewrite ETG. cbn [c_vtg].
+    replace (if p_tags P then if N.eqb w g then ds_empty else r_tags a w else r_tags a w) with (r_tags a w).
+    + apply (r_tvar _ _ R); auto.
+    + destruct (p_tags P); auto. destruct (N.eqb_spec w g); congruence.
+  - intros q Kq x. rewrite ETG. cbn [c_htg].
+    destruct (N.eq_dec q g) as [->|N]; [rewrite fupd_same; apply tg_nil|].
+    rewrite fupd_other by auto.
+    replace (if p_tags P then if N.eqb q g then ds_empty else r_tags a q else r_tags a q) with (r_tags a q).
+    + apply (r_trgn _ _ R); auto.
+    + destruct (p_tags P); auto. destruct (N.eqb_spec q g); congruence.
+  - intros Off w. rewrite ETG, Off. apply (r_toff _ _ R); auto.
+  - intros q x Hx. cbn [c_hp c_htg] in *. destruct (N.eq_dec q g) as [->|N]; [rewrite fupd_same; auto|].
+    rewrite fupd_other in Hx by auto. rewrite fupd_other by auto. apply (r_tuw _ _ R); auto.
+Qed.
+
+(* ---- operator-= on a region ---- *)
+Lemma t_havoc_region_sound a c c' r v :
+  rel a c -> is_rgn v = true -> cstep (OHavoc r v KRegion) c c' -> relv (t_havoc P v KRegion a) c'.
+Proof.
+  intros R Kv (HS & HH & HM & HA & HV & HT & HW & HU). unfold t_havoc. rcore R.
+  set (s1 := set_rgn a v ri_top). set (s2 := set_alloc P s1 v ds_top). set (s3 := set_tags P s2 v ds_top).
+  assert (EB : r_base s3 = r_base a) by (unfold s3, s2; rewrite set_tags_base, set_alloc_base; reflexivity).
+  assert (ER : r_rgn s3 = fupd (r_rgn a) v ri_top) by (unfold s3, s2; rewrite set_tags_rgn, set_alloc_rgn; reflexivity).
+  assert (EAL : forall w, r_alloc s3 w = if p_alloc P then (if N.eqb w v then ds_top else r_alloc a w) else r_alloc a w).
+  { intros w. unfold s3, s2. rewrite set_tags_alloc, set_alloc_get. reflexivity. }
+  assert (ETG : forall w, r_tags s3 w = if p_tags P then (if N.eqb w v then ds_top else r_tags a w) else r_tags a w).
+  { intros w. unfold s3. rewrite set_tags_get. unfold s2. rewrite set_alloc_tags. reflexivity. }
+  rewrite EB.
+  assert (GB : forall s, view c' s -> genv (e_forget (EMap (r_base a)) v) s).
+  { intros s [V1 V2].
+    assert (V0 : view c (upd s v (c_st c v))).
+    { split.
+      - intros k Kk. assert (N : k <> v) by (intros ->; congruence).
+        rewrite upd_other by auto. rewrite (V1 k Kk). auto.
+      - intros q Kq. destruct (N.eq_dec q v) as [->|N]; [left; apply upd_same|].
+        rewrite upd_other by auto. destruct (V2 q Kq) as [E|(x & E)].
+        + left. rewrite E. auto.
+        + right. exists x. rewrite HH in E by auto. auto. }
+    eapply genv_ext; [|apply (e_forget_sound (EMap (r_base a)) _ v (s v) (rc_base _ _ RC _ V0))].
+    intros k. destruct (N.eq_dec k v) as [->|N]; [apply upd_same | rewrite !upd_other by auto; auto]. }
+  destruct (e_forget (EMap (r_base a)) v) as [|m] eqn:ES; [elim (GB _ (view_id c'))|].
+  cbn [with_base relv].
+  assert (MONO : forall d y, sgamma c d y -> sgamma c' d y).
+  { intros d y. apply sgamma_mono. intros ? ? E. rewrite HA. auto. }
+  constructor.
+  - constructor; cbn [r_base r_rgn].
+    + exact GB.
+    + intros q. unfold count, creators. cbn [r_rgn]. rewrite ER.
+      destruct (N.eq_dec q v) as [->|N]; [rewrite fupd_same; exact I|].
+      rewrite fupd_other by auto. rewrite HM by auto. apply (rc_count _ _ RC).
+    + intros q. unfold rinit. cbn [r_rgn]. rewrite ER.
+      destruct (N.eq_dec q v) as [->|N]; [rewrite fupd_same; exact I|].
+      rewrite fupd_other by auto. apply (igamma_hp _ c); [|apply (rc_init _ _ RC)].
+      intros x. rewrite HH by auto. auto.
+    + exact HW.
+  - intros w Kw. assert (N : w <> v) by (intros ->; apply refv_nonrgn in Kw; congruence).
+    cbn [r_alloc]. rewrite EAL, HS by auto.
+    replace (if p_alloc P then if N.eqb w v then ds_top else r_alloc a w else r_alloc a w) with (r_alloc a w).
+    + apply MONO. apply (r_svar _ _ R); auto.
+    + destruct (p_alloc P); auto. destruct (N.eqb_spec w v); congruence.
+  - intros q Kq x w Hw. cbn [r_alloc]. rewrite EAL.
+    destruct (N.eq_dec q v) as [->|N].
+    + rewrite N.eqb_refl. destruct (p_alloc P) eqn:PA; [exact I|]. rewrite (r_soff _ _ R PA). exact I.
+    + rewrite HH in Hw by auto.
+      replace (if p_alloc P then if N.eqb q v then ds_top else r_alloc a q else r_alloc a q) with (r_alloc a q).
+      * apply MONO. eapply (r_srgn _ _ R); eauto.
+      * destruct (p_alloc P); auto. destruct (N.eqb_spec q v); congruence.
+  - intros Off w. cbn [r_alloc]. rewrite EAL, Off. apply (r_soff _ _ R); auto.
+  - rewrite HA. apply (r_anull _ _ R).
+  - intros w Kw. assert (N : w <> v) by (intros ->; congruence). cbn [r_tags]. rewrite ETG, HV.
+    replace (if p_tags P then if N.eqb w v then ds_top else r_tags a w else r_tags a w) with (r_tags a w).
+    + apply (r_tvar _ _ R); auto.
+    + destruct (p_tags P); auto. destruct (N.eqb_spec w v); congruence.
+  - intros q Kq x. cbn [r_tags]. rewrite ETG.
+    destruct (N.eq_dec q v) as [->|N].
+    + rewrite N.eqb_refl. destruct (p_tags P) eqn:PT; [exact I|]. rewrite (r_toff _ _ R PT). exact I.
+    + rewrite HT by auto.
+      replace (if p_tags P then if N.eqb q v then ds_top else r_tags a q else r_tags a q) with (r_tags a q).
+      * apply (r_trgn _ _ R); auto.
+      * destruct (p_tags P); auto. destruct (N.eqb_spec q v); congruence.
+  - intros Off w. cbn [r_tags]. rewrite ETG, Off. apply (r_toff _ _ R); auto.
+  - intros q x Hx. destruct (N.eq_dec q v) as [->|N]; auto.
+    rewrite HH in Hx by auto. rewrite HT by auto. apply (r_tuw _ _ R); auto.
+Qed.
+
+(* ---- add_tag, ref_free ---- *)
+Lemma t_tag_sound a c c' r g t :
+  rel a c -> is_rgn g = true -> cstep (OTag r g t) c c' -> rel (t_tag P g t a) c'.
+Proof.
+  intros R Kg (x0 & z0 & Hz & ->). unfold t_tag. rcore R.
+  constructor.
+  - destruct RC as [B C I W]. constructor; rewrite ?set_tags_base; unfold count, rinit; rewrite ?set_tags_rgn; auto.
+  - intros w Kw. rewrite set_tags_alloc. apply (r_svar _ _ R); auto.
+  - intros q Kq x w Hw. rewrite set_tags_alloc. eapply (r_srgn _ _ R); eauto.
+  - intros Off w. rewrite set_tags_alloc. apply (r_soff _ _ R); auto.
+  - apply (r_anull _ _ R).
+  - intros w Kw. assert (N : w <> g) by (intros ->; congruence). rewrite set_tags_get.
+    replace (if p_tags P then if N.eqb w g then ds_join (r_tags a g) (Some [t]) else r_tags a w else r_tags a w) with (r_tags a w).
+    + apply (r_tvar _ _ R); auto.
+    + destruct (p_tags P); auto. destruct (N.eqb_spec w g); congruence.
+  - intros q Kq x. rewrite set_tags_get. cbn [c_htg].
+    destruct (p_tags P) eqn:PT; [|rewrite (r_toff _ _ R PT); exact I].
+    destruct (N.eq_dec q g) as [->|N].
+    + rewrite N.eqb_refl. pose proof (r_trgn _ _ R g Kg) as X.
+      destruct (Z.eq_dec x x0) as [->|Nx].
+      * rewrite hupd_same. specialize (X x0). destruct (r_tags a g) as [T|]; [|exact I].
+        cbn in *. intros y [<-|Iy]; apply in_or_app; [right; left; auto | left; auto].
+      * rewrite hupd_other_addr by auto. apply tg_join. left. apply X.
+    + destruct (N.eqb_spec q g); [congruence|]. rewrite hupd_other_rgn by auto. apply (r_trgn _ _ R); auto.
+  - intros Off w. rewrite set_tags_get, Off. apply (r_toff _ _ R); auto.
+  - intros q x Hx. cbn [c_hp c_htg] in *.
+    destruct (N.eq_dec q g) as [->|N]; [|rewrite hupd_other_rgn by auto; apply (r_tuw _ _ R); auto].
+    destruct (Z.eq_dec x x0) as [->|Nx]; [congruence|]. rewrite hupd_other_addr by auto. apply (r_tuw _ _ R); auto.
+Qed.
+
+Lemma t_free_sound a c g p : rel a c -> rel (t_free P g p a) c.
+Proof.
+  intros R. unfold t_free. rcore R.
+  constructor.
+  - destruct RC as [B C I W]. constructor; rewrite ?set_alloc_base; unfold count, rinit; rewrite ?set_alloc_rgn; auto.
+  - intros w Kw. rewrite set_alloc_get. destruct (p_alloc P); [|apply (r_svar _ _ R); auto].
+    destruct (N.eqb w p); [exact I | apply (r_svar _ _ R); auto].
+  - intros q Kq x w Hw. rewrite set_alloc_get. destruct (p_alloc P); [|eapply (r_srgn _ _ R); eauto].
+    destruct (N.eqb q p); [exact I | eapply (r_srgn _ _ R); eauto].
+  - intros Off w. rewrite set_alloc_get, Off. apply (r_soff _ _ R); auto.
+  - apply (r_anull _ _ R).
+  - intros w Kw. rewrite set_alloc_tags. apply (r_tvar _ _ R); auto.
+  - intros q Kq x. rewrite set_alloc_tags. apply (r_trgn _ _ R); auto.
+  - intros Off w. rewrite set_alloc_tags. apply (r_toff _ _ R); auto.
+  - apply (r_tuw _ _ R).
+Qed.
+
+(* ---- constraints: the base domain is refined, everything else is kept ---- *)
+Lemma rel_refine_base a c E :
+  rel a c -> (forall s, view c s -> genv E s) -> relv (with_base a E) c.
+Proof.
+  intros R H. destruct E as [|m]; [elim (H _ (view_id c))|]. cbn [with_base relv].
+  destruct R as [RC S1 S2 S3 S4 T1 T2 T3 T4]. constructor; auto.
+  destruct RC as [B C I W]. constructor; auto.
+Qed.
+
+Lemma sat_view k c s : nonrgn_exp (lc_exp k) -> view c s -> sat k s <-> sat k (c_st c).
+Proof. intros N V. unfold sat. rewrite (eval_view _ c s N V). tauto. Qed.
+
+Lemma t_assume_sound a c c' r cs :
+  rel a c -> (forall k, In k cs -> wf_lc k /\ nonrgn_exp (lc_exp k)) ->
+  cstep (OAssume r cs) c c' -> relv (t_assume cs a) c'.
+Proof.
+  intros R OK [S ->]. unfold t_assume. apply rel_refine_base; auto.
+  intros s V. apply d_add_sound; [|apply (rc_base _ _ (r_core _ _ R)); auto].
+  intros k I. destruct (OK k I) as [W N]. split; auto. apply (sat_view k c s N V). auto.
+Qed.
+
+(* ---- ref_assume ---- *)
+Definition rcst_ok (rc : rcst) (e : linexp) : Prop :=
+  nonrgn_exp e /\ wf_le e /\
+  (forall s, sat (mkLC (rrel_kind (rcst_rel rc)) e) s <-> rcst_holds rc s) /\
+  match rc with RBin REq p q _ => is_refv p = true /\ is_refv q = true | _ => True end.
+
+Lemma t_assume_ref_sound a c c' rc e :
+  rel a c -> rcst_ok rc e -> c_assume_ref rc c c' -> relv (t_assume_ref P rc e a) c'.
+Proof.
+  intros R (Ne & We & Sem & Kr) (Hold & Site & ->). unfold t_assume_ref. rcore R.
+  match goal with |- relv (if ?x then _ else _) _ => destruct x eqn:SD end.
+  - (* the allocation sites cannot be disjoint *)
+    exfalso. destruct rc as [rl p|rl p q k]; [discriminate|]. destruct rl; try discriminate.
+    destruct Kr as [Kp Kq].
+    apply andb_true_iff in SD. destruct SD as [PA SD]. cbv zeta in SD.
+    apply andb_true_iff in SD. destruct SD as [SD D4].
+    apply andb_true_iff in SD. destruct SD as [SD D3].
+    apply andb_true_iff in SD. destruct SD as [D1 D2].
+    cbn in Hold. pose proof (r_svar _ _ R p Kp) as Xp. pose proof (r_svar _ _ R q Kq) as Xq.
+    rewrite negb_true_iff in D1, D2. unfold ds_meet in D4. rewrite D1, D2 in D4. cbn [orb] in D4.
+    destruct (r_alloc a p) as [sp|] eqn:Ap; [|congruence].
+    destruct (r_alloc a q) as [sq|] eqn:Aq; [|congruence].
+    cbn in Xp, Xq.
+    assert (NP : c_st c p <> 0 \/ c_st c q <> 0).
+    { apply orb_true_iff in D3. destruct D3 as [D|D]; [left|right]; eapply is_null_false; eauto.
+      - destruct (is_null (r_base a) p); try discriminate; auto.
+      - destruct (is_null (r_base a) q); try discriminate; auto. }
+    pose proof (r_anull _ _ R) as A0.
+    assert (NN : c_st c p <> 0 /\ c_st c q <> 0 /\ c_asite c (c_st c p) = c_asite c (c_st c q)).
+    { destruct (Z.eq_dec k 0) as [->|Nk].
+      - assert (E : c_st c p = c_st c q) by lia. rewrite E in *. destruct NP; auto.
+      - specialize (Site Nk). repeat split; auto.
+        + intros Z0. destruct NP as [A1|A1]; [contradiction|].
+          destruct Xq as [X|(s & X & _)]; [contradiction|]. rewrite Z0, A0 in Site. congruence.
+        + intros Z0. destruct NP as [A1|A1]; [|contradiction].
+          destruct Xp as [X|(s & X & _)]; [contradiction|]. rewrite Z0, A0 in Site. congruence. }
+    destruct NN as (Np & Nq & AS).
+    destruct Xp as [X|(s1 & X1 & I1)]; [contradiction|]. destruct Xq as [X|(s2 & X2 & I2)]; [contradiction|].
+    assert (s1 = s2) by congruence. subst s2.
+    assert (F : In s1 (filter (fun z => ds_mem z sq) sp)) by (apply filter_In; split; auto; apply ds_mem_spec; auto).
+    destruct (filter (fun z => ds_mem z sq) sp); [elim F | discriminate].
+  - apply rel_refine_base; auto. intros s V. apply d_add_sound; [|apply (rc_base _ _ RC); auto].
+    intros k0 [<-|[]]. split; [exact We|].
+    apply (sat_view (mkLC (rrel_kind (rcst_rel rc)) e) c s Ne V). apply Sem. exact Hold.
+Qed.
+
+(* ---- select_ref ---- *)
+Lemma wf_le_var v : wf_le (le_var v).
+Proof.
+  split; cbn.
+  - constructor; [intros []|constructor].
+  - intros co w [E|[]]. inversion E. lia.
+Qed.
+
+Definition arm_ok (p : var) (arm : option (var * var)) : Prop :=
+  match arm with
+  | None => True
+  | Some (q, gq) => is_rgn q = false /\ (is_refv p = true -> is_refv q = true)
+  end.
+
+Lemma sel_arm_sound a c c' p g arm :
+  rel a c -> is_rgn p = false -> arm_ok p arm -> c_sel_arm p g arm c c' ->
+  relv (sel_arm P p g arm (le_var p) a) c'.
+Proof.
+  intros R Kp OK CS. destruct arm as [[q gq]|]; cbn [sel_arm c_sel_arm] in *.
+  - destruct OK as [Kq Kr]. apply (t_gep_sound a c c' p g q gq (le_const 0) (le_var q)); auto.
+    + intros co w [].
+    + intros co w [E|[]]. inversion E; subst. auto.
+    + intros s. rewrite eval_le_var, eval_le_const. lia.
+  - destruct CS as (c1 & H1 & H2).
+    pose proof (t_havoc_scalar_sound a c c1 p KRef R Kp) as X.
+    destruct (t_havoc P p KRef a) as [s1|]; [|apply X; auto; congruence].
+    assert (R1 : rel s1 c1) by (apply X; auto; congruence).
+    apply (t_assume_ref_sound s1 c1 c' (RUn REq p) (le_var p)); auto.
+    unfold rcst_ok. split; [|split; [|split]]; auto.
+    + intros co w [E|[]]. inversion E; subst. auto.
+    + apply wf_le_var.
+    + intros s. unfold sat. cbn [lc_kind lc_exp rrel_kind rcst_rel]. rewrite eval_le_var. cbn. tauto.
+Qed.
+
+(* ---- lattice operations ---- *)
+Lemma ds_join_none_l b : ds_join None b = None. Proof. reflexivity. Qed.
+Lemma ds_join_none_r a : ds_join a None = None. Proof. destruct a; reflexivity. Qed.
+
+Lemma comb_union fb a b c :
+  (forall x y s, genv x s \/ genv y s -> genv (fb x y) s) ->
+  rel a c \/ rel b c -> relv (comb_val fb ri_join ds_join a b) c.
+Proof.
+  intros FB H. unfold comb_val.
+  assert (GB : forall s, view c s -> genv (fb (EMap (r_base a)) (EMap (r_base b))) s).
+  { intros s V. apply FB. destruct H as [R|R]; [left|right]; apply (rc_base _ _ (r_core _ _ R)); auto. }
+  destruct (fb (EMap (r_base a)) (EMap (r_base b))) as [|m]; [elim (GB _ (view_id c))|].
+  cbn [with_base relv].
+  constructor.
+  - constructor; cbn [r_base r_rgn]; auto.
+    + intros g. unfold count. cbn [r_rgn ri_join fst]. apply cg_join.
+      destruct H as [R|R]; [left|right]; apply (rc_count _ _ (r_core _ _ R)).
+    + intros g. unfold rinit. cbn [r_rgn ri_join snd]. apply ig_join.
+      destruct H as [R|R]; [left|right]; apply (rc_init _ _ (r_core _ _ R)).
+    + destruct H as [R|R]; apply (rc_wf _ _ (r_core _ _ R)).
+  - intros v Kv. cbn [r_alloc]. apply sg_join. destruct H as [R|R]; [left|right]; apply (r_svar _ _ R); auto.
+  - intros g Kg x z Hz. cbn [r_alloc]. apply sg_join. destruct H as [R|R]; [left|right]; eapply (r_srgn _ _ R); eauto.
+  - intros Off v. cbn [r_alloc]. destruct H as [R|R]; rewrite (r_soff _ _ R Off);
+      [apply ds_join_none_l | apply ds_join_none_r].
+  - destruct H as [R|R]; apply (r_anull _ _ R).
+  - intros v Kv. cbn [r_tags]. apply tg_join. destruct H as [R|R]; [left|right]; apply (r_tvar _ _ R); auto.
+  - intros g Kg x. cbn [r_tags]. apply tg_join. destruct H as [R|R]; [left|right]; apply (r_trgn _ _ R); auto.
+  - intros Off v. cbn [r_tags]. destruct H as [R|R]; rewrite (r_toff _ _ R Off);
+      [apply ds_join_none_l | apply ds_join_none_r].
+  - destruct H as [R|R]; apply (r_tuw _ _ R).
+Qed.
+
+Lemma v_join_sound x y c : relv x c \/ relv y c -> relv (v_join x y) c.
+Proof.
+  destruct x as [a|], y as [b|]; cbn [v_join relv]; try tauto.
+  apply comb_union. intros; apply e_join_sound; auto.
+Qed.
+Lemma v_widen_sound x y c : relv x c \/ relv y c -> relv (v_widen x y) c.
+Proof.
+  destruct x as [a|], y as [b|]; cbn [v_widen relv]; try tauto.
+  apply comb_union. intros; apply e_widen_sound; auto.
+Qed.
+
+Lemma v_meet_gen_sound fb univ x y c :
+  (forall e1 e2 s, genv e1 s -> genv e2 s -> genv (fb e1 e2) s) ->
+  relv x c -> relv y c -> relv (v_meet_gen fb univ x y) c.
+Proof.
+  intros FB. destruct x as [a|], y as [b|]; cbn [v_meet_gen relv]; try tauto.
+  intros Ra Rb.
+  assert (CM : forall g, cgamma (sr_meet (count a g) (count b g)) (creators c g)).
+  { intros g. apply cg_meet; [apply (rc_count _ _ (r_core _ _ Ra)) | apply (rc_count _ _ (r_core _ _ Rb))]. }
+  assert (IM : forall g, igamma (bv_meet (rinit a g) (rinit b g)) c g).
+  { intros g. apply ig_meet; [apply (rc_init _ _ (r_core _ _ Ra)) | apply (rc_init _ _ (r_core _ _ Rb))]. }
+  destruct (existsb _ univ) eqn:EX.
+  { apply existsb_exists in EX. destruct EX as (g & _ & B). unfold ri_is_bot, ri_meet in B. cbn [fst snd] in B.
+    apply orb_true_iff in B. destruct B as [B|B].
+    - specialize (CM g). unfold count in CM. destruct (sr_meet (fst (r_rgn a g)) (fst (r_rgn b g))); try discriminate. exact CM.
+    - specialize (IM g). unfold rinit in IM. destruct (bv_meet (snd (r_rgn a g)) (snd (r_rgn b g))); try discriminate. exact IM. }
+  unfold comb_val.
+  assert (GB : forall s, view c s -> genv (fb (EMap (r_base a)) (EMap (r_base b))) s).
+  { intros s V. apply FB; [apply (rc_base _ _ (r_core _ _ Ra)) | apply (rc_base _ _ (r_core _ _ Rb))]; auto. }
+  destruct (fb (EMap (r_base a)) (EMap (r_base b))) as [|m]; [elim (GB _ (view_id c))|].
+  cbn [with_base relv].
+  constructor.
+  - constructor; cbn [r_base r_rgn]; [exact GB | exact CM | exact IM | apply (rc_wf _ _ (r_core _ _ Ra))].
+  - intros v Kv. cbn [r_alloc]. apply sg_meet; [apply (r_svar _ _ Ra) | apply (r_svar _ _ Rb)]; auto.
+  - intros g Kg x z Hz. cbn [r_alloc]. apply sg_meet; [eapply (r_srgn _ _ Ra) | eapply (r_srgn _ _ Rb)]; eauto.
+  - intros Off v. cbn [r_alloc]. rewrite (r_soff _ _ Ra Off), (r_soff _ _ Rb Off). reflexivity.
+  - apply (r_anull _ _ Ra).
+  - intros v Kv. cbn [r_tags]. apply tg_meet; [apply (r_tvar _ _ Ra) | apply (r_tvar _ _ Rb)]; auto.
+  - intros g Kg x. cbn [r_tags]. apply tg_meet; [apply (r_trgn _ _ Ra) | apply (r_trgn _ _ Rb)]; auto.
+  - intros Off v. cbn [r_tags]. rewrite (r_toff _ _ Ra Off), (r_toff _ _ Rb Off). reflexivity.
+  - apply (r_tuw _ _ Ra).
+Qed.
+
+(* the top value describes every well-formed concrete state *)
+Definition cinit (c : cstate) : Prop :=
+  cwf c /\ c_asite c 0 = None /\ (forall g x, c_hp c g x = None -> c_htg c g x = []).
+Lemma rel_top c : cinit c -> rel r_top c.
+Proof.
+  intros (W & A & U). constructor; cbn; auto.
+  - constructor; cbn; auto. intros s _ k. apply gamma_top.
+Qed.
+End WithKinds.
